@@ -77,11 +77,13 @@ func runSeq(p *SeqProfile, tier string, seed int64, scratch string, t0 time.Time
 	r.design()
 	// 2. spec -> code: TLC-generated histories
 	if p.GenSpec != nil {
-		hs, err := genFromSpec(p.GenSpec, tier, seed, scratch)
+		hs, nstates, err := genFromSpec(p.GenSpec, tier, seed, scratch)
 		if err != nil {
 			r.infra("spec-generated histories: %v", err)
 		} else {
+			r.GenStates = nstates
 			r.execHistories(hs, "gen")
+			r.NGen = len(hs)
 		}
 	}
 	// 3. code -> spec: random histories
@@ -128,7 +130,9 @@ func (r *SeqRun) finish(t0 time.Time) int {
 		"known_findings_hit":  r.KFHits,
 		"infrastructure":      r.Infra,
 		"histories_random":    r.P.NRandom,
-		"histories_generated": r.NHist - r.P.NRandom,
+		"histories_generated": r.NGen,
+		"generator_states":    r.GenStates,
+		"model_drift":         r.Drift,
 	}
 	if len(r.Samples) == 0 {
 		cov["samples"] = []any{"no events recorded"}
